@@ -194,6 +194,11 @@ func dependsOn(v ssa.Value, call *ssa.Call, idx int) bool {
 	return rec(v)
 }
 
+func isExtract(v ssa.Value) bool {
+	_, ok := v.(*ssa.Extract)
+	return ok
+}
+
 type orderType struct {
 	name      string
 	limit, ln int64
@@ -236,14 +241,53 @@ var ruleTruncTable = &core.Rule{ID: "R08.1", Min: 7,
 		raw := pcall.Call.Args[len(pcall.Call.Args)-1]
 		s.Check(raw == ssa.Value(f.Params[0]), "scanner runs on the unmodified header", c.Pos(pcall.Pos()), "argument is the parameter", "the scanner is not given the helper's unmodified header")
 		lens := lenCallsOf(f, f.Params[0])
+		// where the verdict is computed: in the helper after the scanner call, or in a verdict function the helper
+		// returns, which receives the header length, the limit and the two scanner lengths
+		vf, start := f, pcall.Block()
+		var limV ssa.Value = lim
+		isParsed := func(v ssa.Value) bool { return dependsOn(v, pcall, 0) }
+		isInsp := func(v ssa.Value) bool { return dependsOn(v, pcall, 1) }
+		for _, r := range core.Returns(f) {
+			vc, ok := r.Results[0].(*ssa.Call)
+			if !ok {
+				continue
+			}
+			h := vc.Call.StaticCallee()
+			if h == nil || !core.InMod(h) || h.Blocks == nil || len(h.Params) != len(vc.Call.Args) {
+				continue
+			}
+			var hLen, hLim, hParsed, hInsp ssa.Value
+			for i, a := range vc.Call.Args {
+				switch {
+				case a == ssa.Value(lim):
+					hLim = h.Params[i]
+				case dependsOn(a, pcall, 0) && isExtract(a):
+					hParsed = h.Params[i]
+				case dependsOn(a, pcall, 1) && isExtract(a):
+					hInsp = h.Params[i]
+				default:
+					for _, l := range lens {
+						if a == l {
+							hLen = h.Params[i]
+						}
+					}
+				}
+			}
+			if hLen != nil && hLim != nil && hParsed != nil && hInsp != nil {
+				vf, start, limV, lens = h, h.Blocks[0], hLim, []ssa.Value{hLen}
+				isParsed = func(v ssa.Value) bool { return mentionsValue(v, hParsed) }
+				isInsp = func(v ssa.Value) bool { return mentionsValue(v, hInsp) }
+				s.OK("verdict function receives (len(header), limit, parsed, inspected)", c.Pos(vc.Pos()), h.Name())
+			}
+		}
 		for _, ot := range orderTypes {
 			key := "order type " + ot.name
 			ev := newEval(c)
-			ev.Env = fde.Env{lim: constant.MakeInt64(ot.limit)}
+			ev.Env = fde.Env{limV: constant.MakeInt64(ot.limit)}
 			for _, l := range lens {
 				ev.Env[l] = constant.MakeInt64(ot.ln)
 			}
-			exits, err := ev.Walk(pcall.Block(), nil, nil, 8)
+			exits, err := ev.Walk(start, nil, nil, 8)
 			if err != nil {
 				s.Und(key, c.Pos(f.Pos()), err.Error())
 				continue
@@ -269,14 +313,14 @@ var ruleTruncTable = &core.Rule{ID: "R08.1", Min: 7,
 					continue
 				}
 				nCrit++
-				usesParsed, usesInsp := dependsOn(v, pcall, 0), dependsOn(v, pcall, 1)
+				usesParsed, usesInsp := isParsed(v), isInsp(v)
 				// also conditions on the path (e.g. inspected == len controlling a later len > 0)
 				for _, blk := range x.Path {
 					if iff := core.IfOf(blk); iff != nil {
-						if dependsOn(iff.Cond, pcall, 0) {
+						if isParsed(iff.Cond) {
 							usesParsed = true
 						}
-						if dependsOn(iff.Cond, pcall, 1) {
+						if isInsp(iff.Cond) {
 							usesInsp = true
 						}
 					}
@@ -303,21 +347,30 @@ var ruleTruncTable = &core.Rule{ID: "R08.1", Min: 7,
 			return false
 		}
 		n := 0
-		for _, b := range f.Blocks {
+		for _, b := range vf.Blocks {
 			for _, in := range b.Instrs {
 				bo, ok := in.(*ssa.BinOp)
 				if !ok {
 					continue
 				}
-				for idx := 0; idx < 2; idx++ {
-					if ex, ok := bo.X.(*ssa.Extract); ok && ex.Tuple == ssa.Value(pcall) && ex.Index == idx || func() bool {
-						ex, ok := bo.Y.(*ssa.Extract)
-						return ok && ex.Tuple == ssa.Value(pcall) && ex.Index == idx
-					}() {
+				switch bo.Op {
+				case token.EQL, token.NEQ, token.LSS, token.LEQ, token.GTR, token.GEQ:
+				default:
+					continue
+				}
+				for idx, is := range []func(ssa.Value) bool{isParsed, isInsp} {
+					direct := func(v ssa.Value) bool {
+						if vf == f {
+							return isExtract(v) && is(v)
+						}
+						_, isP := v.(*ssa.Parameter)
+						return isP && is(v)
+					}
+					if direct(bo.X) || direct(bo.Y) {
 						n++
 						name := []string{"parsed", "inspected"}[idx]
 						other := bo.Y
-						if ex, ok := bo.Y.(*ssa.Extract); ok && ex.Tuple == ssa.Value(pcall) {
+						if direct(bo.Y) {
 							other = bo.X
 						}
 						s.Check(bo.Op == token.EQL && isLen(other), fmt.Sprintf("verdict on %s is an equality with len(header)", name), c.Pos(bo.Pos()), name+" == len(raw)",
